@@ -266,14 +266,17 @@ def skel_hash(obj):
 
 RECORD = False
 GOT = {}
+PIN_ERRORS = []
 
 
 def pin(key, h, what):
-    """Compare a skeleton hash with the one the hand-written model was derived from."""
+    """Compare a skeleton hash with the one the hand-written model was derived from.  A mismatch is
+    collected (the Lean file is still regenerated from what could be translated) and reported as
+    a broken tie at the end of the run."""
     GOT[key] = h
     if not RECORD and EXPECTED.get(key) != h:
-        raise TranslationError(f'{what} changed (hash {h}, modelled {EXPECTED.get(key)}); the hand-written '
-                               'model in Model/C14.lean mirrors the recorded shape and must be re-derived')
+        PIN_ERRORS.append(f'{what} changed (hash {h}, modelled {EXPECTED.get(key)}); the hand-written '
+                          'model in Model/C14.lean mirrors the recorded shape and must be re-derived')
 
 
 def is_throw(s, exc):
@@ -452,7 +455,7 @@ def translate_to_dense(o: Out, name, body, sym_enum, is_coo):
     if subject != 'from_sparsity.symmetry':
         raise TranslationError(f'{what}: switch subject is {subject!r}')
     skel = cp.parse_statements(skel_text)
-    h = skel_hash(skel)
+    h = skel_hash(_blank_decl_init(skel, ('r', 'c')) if is_coo else skel)
     o.regions[f'{name}DenseLoopSkeleton'] = h
     pin(f'{name}Dense', h, f'{what}: loop skeleton of convert_values')
     # inside the loops: how r, c are obtained
@@ -517,6 +520,17 @@ def translate_to_dense(o: Out, name, body, sym_enum, is_coo):
           sym_chain(writes, sym_enum, writes['default'], what),
           f'{what} convert_values: cells T(i, j) assigned `work(l)` for entry (r, c), in execution order',
           sorted(writes.items()))
+
+
+def _blank_decl_init(ast, names):
+    """Blank the initialisers of the named declarations (translated separately) in a skeleton."""
+    if isinstance(ast, tuple):
+        if len(ast) == 4 and ast[0] == 'decl' and ast[2] in names:
+            return ('decl', ast[1], ast[2], '__INIT__')
+        return tuple(_blank_decl_init(x, names) for x in ast)
+    if isinstance(ast, list):
+        return [_blank_decl_init(x, names) for x in ast]
+    return ast
 
 
 def _replace(ast, pat, repl):
@@ -878,7 +892,7 @@ def compiled_out_fallback(raw_body, anchor_re, what):
 # skeleton hashes of the loops mirrored by the hand-written model (Model/C14.lean)
 EXPECTED = {
     'cscDense': 'aca4098c4a371ff9',
-    'cooDense': '37059d2afba467d0',
+    'cooDense': '19b83e808a13152d',
     'denseCoo': '8913e02abc99a008',
     'denseCsc': '5859ce36e92a28f5',
     'denseValues': '9a778ea196cfb887',
@@ -1031,6 +1045,8 @@ def main(out_path):
     if old != text:
         with open(out_path, 'w') as f:
             f.write(text)
+    if PIN_ERRORS:
+        raise TranslationError('; '.join(PIN_ERRORS))
     return o.regions
 
 
